@@ -48,6 +48,12 @@ def hetero_programs(r):
             P("list-heterogeneous-index", "let l = [%s, %s]; let v = %s; let w = %s;" % (a, b, ua % "l.0", ub % "l.1"))
             P("list-concat-heterogeneous-index", "let l = [%s, %s] + [%s]; let v = %s;" % (a, b, a, ub % "l.1"))
             P("list-concat-then-index", "let l = [%s] + [%s]; let v = %s;" % (a, b, ub % "l.1"))
+            P("list-concat-tuples-wider-right", "let l = [{a = %s}] + [{a = %s, b = %s}]; let v = %s;" % (b, b, a, ua % "(l.1).b"))
+            P("list-concat-tuples-wider-left", "let l = [{a = %s, b = %s}] + [{a = %s}]; let v = %s;" % (b, a, b, ua % "(l.0).b"))
+            P("returned-closure-returns-outer-parameter", "let x = %s; let mk = func (x) => func (y) => x; let g = mk(%s); let v = %s; let w = %s;"
+              % (b, a, ua % "g(0)", ub % "x"))
+            P("returned-closure-in-tuple", "let x = %s; let mk = func (x) => {get = func () => x}; let o = mk(%s); let v = %s; let w = %s;"
+              % (b, a, ua % "o.get()", ub % "x"))
             P("list-of-lists-differ", "let l = [[%s], [%s]]; let v = %s;" % (a, b, ub % "(l.1).0"))
             P("map-result-types-differ", "let l = map(func (x) => select (x == 1, %s) => {true = %s}, [1, 2]); let v = %s;" % (b, a, ua % "l.0"))
             # tuples / copies
